@@ -249,6 +249,36 @@ func init() {
 			m := e.eval(args[0])
 			return Scalar{e.wireOK(m, layoutFor(m))}
 		},
+		// uninterpreted spec functions: ufi/ufs/ufb("name", args...) and ufval (interface-valued)
+		"ufi": func(e *Env, args []ast.Expr) Value { return Scalar{e.ufApp(args, SInt)} },
+		"ufs": func(e *Env, args []ast.Expr) Value { return Scalar{e.ufApp(args, SString)} },
+		"ufb": func(e *Env, args []ast.Expr) Value { return Scalar{e.ufApp(args, SBool)} },
+		"ufval": func(e *Env, args []ast.Expr) Value {
+			h := e.ufApp(args, SInt)
+			return Iface{Tid: UF("tid", SInt, h), Box: h}
+		},
+		"implements": func(e *Env, args []ast.Expr) Value {
+			iv, ok := e.eval(args[0]).(Iface)
+			ty := e.resolveType(args[1])
+			if !ok || ty == nil {
+				fail("spec: implements(iface, T)")
+			}
+			if iv.Dyn != nil {
+				return Scalar{BoolT(types.Implements(iv.Dyn, ty.Underlying().(*types.Interface)))}
+			}
+			return Scalar{And(Neq(iv.Tid, Int(0)), UF("implements_"+typeKey(ty), SBool, iv.Tid))}
+		},
+		"sint16": func(e *Env, args []ast.Expr) Value {
+			return Scalar{wrapInt(e.toTerm(e.eval(args[0])), types.Typ[types.Int16])}
+		},
+		"wirefields": func(e *Env, args []ast.Expr) Value {
+			m := e.eval(args[0])
+			var ns []string
+			for _, f := range layoutFor(m).Fields {
+				ns = append(ns, f.Name)
+			}
+			return Scalar{Str(strings.Join(ns, ","))}
+		},
 		"wire_limits": func(e *Env, args []ast.Expr) Value {
 			m := e.eval(args[0])
 			return Scalar{e.wireLimits(m, layoutFor(m))}
@@ -285,4 +315,53 @@ func init() {
 			e.fr.gxSet(e.st, h, c)
 		},
 	}
+}
+
+func (e *Env) ufApp(args []ast.Expr, sort *Sort) *Term {
+	nameV, ok := e.eval(args[0]).(Scalar)
+	if !ok || !nameV.T.IsStr() {
+		fail("spec: uf*: first argument must be a string literal")
+	}
+	var ts []*Term
+	for _, a := range args[1:] {
+		ts = append(ts, e.flattenArg(e.eval(a))...)
+	}
+	return UF(nameV.T.S, sort, ts...)
+}
+
+func (e *Env) flattenArg(v Value) []*Term {
+	switch x := v.(type) {
+	case Scalar:
+		return []*Term{x.T}
+	case Iface:
+		if x.Dyn != nil {
+			h, err := e.st.handleOf(x)
+			if err != nil {
+				fail("spec: uf argument: %v", err)
+			}
+			return []*Term{e.st.eng.tidOf(x.Dyn), h}
+		}
+		return []*Term{x.Tid, x.Box}
+	case Ptr:
+		return []*Term{x.H}
+	case MapRef:
+		return []*Term{x.H}
+	case Slice:
+		if isByte(x.Elem) {
+			return []*Term{e.toTerm(x)}
+		}
+		return []*Term{x.Back, x.Off, x.Len}
+	case Struct:
+		h, err := e.st.handleOf(x)
+		if err != nil {
+			fail("spec: uf argument: %v", err)
+		}
+		return []*Term{h}
+	case Func:
+		if x.H != nil {
+			return []*Term{x.H}
+		}
+	}
+	fail("spec: unsupported uf argument %T", v)
+	return nil
 }
